@@ -8,7 +8,9 @@
 (***************************************************************************)
 EXTENDS CincoConfig, Json
 
-CONSTANTS TheSchema,     \* unbound schema descriptor
+CONSTANTS TheSchema,     \* unbound schema descriptor of the instance
+          Family,        \* further schemas (the generated family, a sequence); <<>> for a single-schema instance
+          Generic,       \* TRUE: candidate pools are derived from the schema (Gen* below)
           SetCands,      \* [<<path, key>> |-> set of candidate values for assignment]
           Trees,         \* candidate trees for load_tree (values of tag "dict")
           Kwargs,        \* candidate constructor keyword lists: sequences of <<key, value>>
@@ -18,17 +20,88 @@ CONSTANTS TheSchema,     \* unbound schema descriptor
 
 VARIABLES cfgs,          \* [{"c1","c2"} -> configuration | NoneV (not built yet)]
           ev,            \* last event (observation; not part of the VIEW)
-          steps          \* number of operations performed (exact depth bound for TLC)
-vars == <<cfgs, ev, steps>>
-St == [cfgs |-> cfgs]
+          steps,         \* number of operations performed (exact depth bound for TLC)
+          sid, sch       \* which schema of the family this behaviour is about, and its bound form
+vars == <<cfgs, ev, steps, sid, sch>>
+St == [cfgs |-> cfgs, sid |-> sid]
 
-S == Bind(TheSchema, RootPrefix(TheSchema))
+\* the schemas of the instance, in a fixed order (sid indexes it; the harness reads it once)
+FamilySeq == <<TheSchema>> \o SelectSeq(Family, LAMBDA x : x # TheSchema)
+S == sch
 Names == {"c1", "c2"}
 
+---------------------------------------------------------------------------
+(* Generic candidate pools, derived from the schema itself (used when Generic = TRUE, i.e.
+   for the generated schema family): for every field kind a valid value, a value that
+   normalises, a rejected value and a wrongly typed one. *)
+gs(t) == StrV(t)
+GD1(kc, v) == DictV(<< <<StrV(kc), v>> >>)
+RECURSIVE GenCands(_)
+GenCands(f) ==
+    CASE f.kind = "int"      -> {IntV(3), IntV(11), gs(<<"7">>), NoneV, gs(<<"x">>)}
+      [] f.kind = "string"   -> {gs(<<" ", "A", "b", " ">>), gs(<<"a", "b", "c", "d">>), IntV(1), gs(<<>>)}
+      [] f.kind = "bool"     -> {gs(<<"y", "e", "s">>), gs(<<"m">>), BoolV(TRUE)}
+      [] f.kind = "ipv4addr" -> {gs(<<"1", "0", ".", "0", ".", "0", ".", "7">>), gs(<<"2", "5", "6", ".", "1", ".", "1", ".", "1">>)}
+      [] f.kind = "bytes"    -> {BytesV(<<0, 255>>), gs(<<"a", "b">>), IntV(5)}
+      [] f.kind = "list" /\ f.item.kind = "schema" ->
+            {ListV(<<GD1(<<"p">>, IntV(1))>>), ListV(<<GD1(<<"p">>, IntV(0))>>), ListV(<<IntV(1)>>), ListV(<<>>)}
+      [] f.kind = "list"     -> {ListV(<<IntV(2), gs(<<"3">>)>>), ListV(<<IntV(-1)>>), gs(<<"x">>), ListV(<<>>)}
+      [] f.kind = "dict"     -> {GD1(<<"k">>, IntV(1)), GD1(<<"k">>, gs(<<"x">>)), ListV(<<>>)}
+      [] f.kind = "schema"   ->
+            LET k1 == f.fields[1][1]  f1 == f.fields[1][2]
+                inner == IF f1.kind = "schema" THEN {GD1(KeyChars[f1.fields[1][1]], IntV(1))} ELSE GenCands(f1) IN
+            {GD1(KeyChars[k1], c) : c \in {x \in inner : x.t \in {"int", "str", "dict", "list", "bool"}}}
+            \cup {IntV(1), GD1(<<"z", "z">>, IntV(1)), DictV(<<>>)}
+      [] OTHER               -> {IntV(1)}
+\* every <<path, key>> of the schema, nested ones included (depth <= 2 below the root)
+GenPaths(Sx) ==
+    LET top == {<< <<>>, Sx.fields[i][1]>> : i \in DOMAIN Sx.fields}
+        below(k, f) == IF IsSchema(f) THEN
+                           {<< <<k>>, f.fields[i][1]>> : i \in DOMAIN f.fields}
+                           \cup UNION {IF IsSchema(f.fields[i][2])
+                                       THEN {<< <<k, f.fields[i][1]>>, f.fields[i][2].fields[j][1]>> : j \in DOMAIN f.fields[i][2].fields}
+                                       ELSE {} : i \in DOMAIN f.fields}
+                       ELSE {}
+    IN top \cup UNION {below(Sx.fields[i][1], Sx.fields[i][2]) : i \in DOMAIN Sx.fields}
+GenSetCands(Sx) == [pk \in GenPaths(Sx) \cup {<< <<>>, "zz">>} |->
+                        IF pk[2] = "zz" THEN {IntV(1)} ELSE GenCands(FieldOf(SchemaAt(Sx, pk[1]), pk[2]))]
+GenTrees(Sx) ==
+    {DictV(<<>>)}
+    \cup UNION {{GD1(KeyChars[Sx.fields[i][1]], c) : c \in GenCands(Sx.fields[i][2])} : i \in DOMAIN Sx.fields}
+    \cup (IF Len(Sx.fields) >= 2
+          THEN {DictV(<< <<StrV(KeyChars[Sx.fields[1][1]]), a>>, <<StrV(KeyChars[Sx.fields[2][1]]), b>> >>) :
+                    a \in GenCands(Sx.fields[1][2]), b \in GenCands(Sx.fields[2][2])}
+          ELSE {})
+GenKwargs(Sx) == {<<>>} \cup UNION {{<< <<Sx.fields[i][1], c>> >> : c \in GenCands(Sx.fields[i][2])} : i \in DOMAIN Sx.fields}
+GenListOps(Sx) ==
+    [pk \in {q \in GenPaths(Sx) : FieldOf(SchemaAt(Sx, q[1]), q[2]).kind = "list"} |->
+        IF FieldOf(SchemaAt(Sx, pk[1]), pk[2]).item.kind = "schema"
+        THEN {[m |-> "append", v |-> GD1(<<"p">>, IntV(3))], [m |-> "append", v |-> GD1(<<"p">>, IntV(0))],
+              [m |-> "append", v |-> DictV(<<>>)], [m |-> "insert", i |-> 0, v |-> GD1(<<"p">>, IntV(4))],
+              [m |-> "item_set", i |-> 0, k |-> "p", v |-> IntV(8)], [m |-> "item_set", i |-> 0, k |-> "p", v |-> IntV(0)], [m |-> "pop"]}
+        ELSE {[m |-> "append", v |-> IntV(4)], [m |-> "append", v |-> IntV(-1)], [m |-> "append", v |-> gs(<<"5">>)],
+              [m |-> "insert", i |-> 0, v |-> IntV(7)], [m |-> "setitem", i |-> 0, v |-> IntV(-9)], [m |-> "setitem", i |-> 5, v |-> IntV(1)],
+              [m |-> "extend", vs |-> <<IntV(6), IntV(-1), IntV(8)>>], [m |-> "setslice_all", vs |-> <<IntV(3), gs(<<"x">>)>>],
+              [m |-> "pop"], [m |-> "clear"]}]
+GenDictOps(Sx) ==
+    [pk \in {q \in GenPaths(Sx) : FieldOf(SchemaAt(Sx, q[1]), q[2]).kind = "dict"} |->
+        {[m |-> "setitem", k |-> gs(<<"k">>), v |-> IntV(1)], [m |-> "setitem", k |-> gs(<<"k">>), v |-> gs(<<"x">>)],
+         [m |-> "update", kv |-> << <<gs(<<"a">>), IntV(1)>>, <<gs(<<"b">>), gs(<<"x">>)>> >>],
+         [m |-> "ior", kv |-> << <<gs(<<"c">>), gs(<<"3">>)>> >>], [m |-> "setdefault", k |-> gs(<<"k">>), v |-> IntV(5)],
+         [m |-> "pop", k |-> gs(<<"K">>)], [m |-> "clear"]}]
+
+SetCandsNow == IF Generic THEN GenSetCands(S) ELSE SetCands
+TreesNow    == IF Generic THEN GenTrees(S) ELSE Trees
+KwargsNow   == IF Generic THEN GenKwargs(S) ELSE Kwargs
+ListOpsNow  == IF Generic THEN GenListOps(S) ELSE ListOps
+DictOpsNow  == IF Generic THEN GenDictOps(S) ELSE DictOps
+
 Init ==
-    LET d == DefaultCfg(S, <<>>) IN
-    /\ d.ok
-    /\ cfgs \in {[c1 |-> d.cfg, c2 |-> d.cfg], [c1 |-> d.cfg, c2 |-> NoneV]}
+    /\ sid \in DOMAIN FamilySeq
+    /\ sch = Bind(FamilySeq[sid], RootPrefix(FamilySeq[sid]))
+    /\ LET d == DefaultCfg(sch, <<>>) IN
+       /\ d.ok
+       /\ cfgs \in {[c1 |-> d.cfg, c2 |-> d.cfg], [c1 |-> d.cfg, c2 |-> NoneV]}
     /\ ev = [op |-> "Init"]
     /\ steps = 0
 
@@ -106,6 +179,22 @@ CopyTree(n, m) ==
        \/ /\ ~r.ok /\ cfgs' = cfgs
           /\ ev' = [op |-> "CopyTree", n |-> m, src |-> n, out |-> Outcome(r), errpath |-> r.err.path, repl |-> {}]
 
+\* A new session (C02): n.dumps(fmt) is loaded by a FRESH configuration of the same schema, which
+\* takes n's place.  The five formats are a typed channel here (their fidelity is C04's
+\* subject); the format is an event parameter so that the harness goes through each real one.
+Formats == {"json", "yaml", "bson", "xml", "pickle"}
+RoundTrip(n, fmt) ==
+    /\ Built(n)
+    /\ LET tree == ToTree(S, cfgs[n], FALSE, NoMask)
+           d == DefaultCfg(S, <<>>)
+           r == LoadTree(S, d.cfg, Channel(fmt, tree), <<>>, TRUE) IN
+       IF ~InFormatDomain(fmt, tree)
+       THEN /\ UNCHANGED cfgs
+            /\ ev' = [op |-> "RoundTrip", n |-> n, fmt |-> fmt, out |-> "Unmodelled", errpath |-> <<>>, repl |-> {}]
+       ELSE /\ cfgs' = [cfgs EXCEPT ![n] = IF r.ok THEN r.cfg ELSE @]
+            /\ ev' = [op |-> "RoundTrip", n |-> n, fmt |-> fmt, out |-> Outcome(r), errpath |-> r.err.path,
+                      repl |-> IF r.ok THEN {<<>>} ELSE {}]
+
 \* read-only queries: asdict(cfg, virtual=True), the value every computed field shows and the
 \* result of calling every instance method.  (ConfigType.__eq__ is not modelled: it inherits
 \* DictProxy.__eq__, which deliberately makes typed dicts of different configurations unequal.)
@@ -129,21 +218,22 @@ CheckCollect(n) ==
        /\ UNCHANGED cfgs
        /\ ev' = [op |-> "ValidateCollect", n |-> n, out |-> IF r.ok THEN "ok" ELSE "errors", errpath |-> <<>>, repl |-> {}]
 
-Tick == steps < MaxDepth /\ steps' = steps + 1
+Tick == steps < MaxDepth /\ steps' = steps + 1 /\ UNCHANGED <<sid, sch>>
 
 \* (a disjunction of actions, so that TLC's simulator picks one operation per step)
 Next ==
-    \/ \E n \in Names, pk \in DOMAIN SetCands : \E v \in SetCands[pk] : Tick /\ SetAttr(n, pk, v)
-    \/ \E n \in Names, pk \in DOMAIN SetCands : \E v \in SetCands[pk] : Tick /\ SetItem(n, pk, v)
-    \/ \E n \in Names, kw \in Kwargs : Tick /\ Ctor(n, kw)
-    \/ \E n \in Names, t \in Trees : Tick /\ Load(n, t)
-    \/ \E n \in Names, pk \in DOMAIN SetCands : Tick /\ Reset(n, pk)
-    \/ \E n \in Names, pk \in DOMAIN ListOps : \E o \in ListOps[pk] : Tick /\ COp(n, pk, o)
-    \/ \E n \in Names, pk \in DOMAIN DictOps : \E o \in DictOps[pk] : Tick /\ COp(n, pk, o)
+    \/ \E n \in Names, pk \in DOMAIN SetCandsNow : \E v \in SetCandsNow[pk] : Tick /\ SetAttr(n, pk, v)
+    \/ \E n \in Names, pk \in DOMAIN SetCandsNow : \E v \in SetCandsNow[pk] : Tick /\ SetItem(n, pk, v)
+    \/ \E n \in Names, kw \in KwargsNow : Tick /\ Ctor(n, kw)
+    \/ \E n \in Names, t \in TreesNow : Tick /\ Load(n, t)
+    \/ \E n \in Names, pk \in DOMAIN SetCandsNow : Tick /\ Reset(n, pk)
+    \/ \E n \in Names, pk \in DOMAIN ListOpsNow : \E o \in ListOpsNow[pk] : Tick /\ COp(n, pk, o)
+    \/ \E n \in Names, pk \in DOMAIN DictOpsNow : \E o \in DictOpsNow[pk] : Tick /\ COp(n, pk, o)
     \/ \E n \in Names : Tick /\ Check(n)
     \/ \E n \in Names : Tick /\ CheckCollect(n)
     \/ \E n \in Names : Tick /\ Query(n)
     \/ \E n \in Names, m \in Names : Tick /\ CopyTree(n, m)
+    \/ \E n \in Names, fmt \in Formats : Tick /\ RoundTrip(n, fmt)
 
 Bound == TRUE
 
@@ -286,6 +376,14 @@ C15_Error ==
            /\ IsPrefixOf(Append(ev.p, ev.k), ev.errpath)
            /\ PathDeclared(S, ev.errpath)
 
+(* C02 on this machine: a configuration that passes validation survives dumps / fresh loads,
+   and whatever is re-loaded holds the same persistent values (modulo the stated normalisations) *)
+A_Reproduces ==
+    (ev'.op = "RoundTrip") =>
+        /\ (ValidateCfg(S, cfgs[ev'.n], <<>>).ok /\ ev'.out # "Unmodelled") => ev'.out = "ok"
+        /\ ev'.out = "ok" => SameVals(S, cfgs[ev'.n], cfgs'[ev'.n])
+C02_Reproduces == [][A_Reproduces]_vars
+
 (* C13: an operation on one configuration never changes the other *)
 A_Isolated == \A m \in Names : ("n" \in DOMAIN ev' /\ ev'.n # m) => cfgs'[m] = cfgs[m]
 C13_Isolated == [][A_Isolated]_vars
@@ -293,5 +391,5 @@ C13_Isolated == [][A_Isolated]_vars
 ---------------------------------------------------------------------------
 Export == PrintT(<<"EDGE", ToJson([from |-> St, ev |-> ev', to |-> St'])>>)
 PInit  == (steps = 0) => PrintT(<<"INIT", ToJson(St)>>)
-View == <<cfgs, steps>>
+View == <<cfgs, steps, sid>>
 =============================================================================
